@@ -11,6 +11,7 @@ ap.add_argument('-j', type=int, default=4)
 ap.add_argument('--prop'); ap.add_argument('--only'); ap.add_argument('--seeded', action='store_true')
 ap.add_argument('--repo', default=os.environ.get('VIPCHECK_REPO', '/repo'))
 ap.add_argument('-v', action='store_true')
+ap.add_argument('--patch', action='append', default=[])
 a = ap.parse_args()
 env = dict(os.environ, GOFLAGS='-mod=mod', GOPROXY='off', GOSUMDB='off', GOTOOLCHAIN='local'); env.pop('GOWORK', None)
 muts = json.load(open(os.path.join(here, 'selftest', 'mutants.json')))
@@ -22,7 +23,9 @@ if a.seeded:
         if os.path.exists(mp):
             m = json.load(open(mp))
             muts.append({'name': 'seeded/' + d, 'prop': m['property'], 'patch': os.path.join(sd, d, 'patch.diff'), 'expect': m.get('expect_obligation', '')})
-if a.prop: muts = [m for m in muts if m['prop'] == a.prop]
+if a.patch:
+    muts = [{'name': pp, 'prop': a.prop or 'all', 'patch': pp, 'expect': ''} for pp in a.patch]
+elif a.prop: muts = [m for m in muts if m['prop'] == a.prop]
 if a.only: muts = [m for m in muts if a.only in m['name']]
 
 def run(m):
